@@ -24,4 +24,27 @@ PROPS = {
                 assumptions=COMMON_ASSUME),
     'C10': dict(rule=FAMILY_RULE, builds=[('rel', 1.0, 1.0)], must_observe=['backend_runs', 'agreements'],
                 assumptions=COMMON_ASSUME + ["ChunkInput<N> models BufferedInput at other capacities and implements only the required trait methods"]),
+    'C12': dict(rule=FAMILY_RULE, builds=[('rel', 1.0, 1.0), ('chk', 0.35, 1.0)], must_observe=['spans_checked', 'plain_spans_checked', 'quoted_spans_checked', 'marked_nodes_checked'],
+                assumptions=COMMON_ASSUME + ["positions at end of input are exempt from the line/column recount (the statement covers positions before the end)",
+                                             "plain scalars equal to '~' are exempt from the span-text rule (synthesized for omitted nodes)"]),
+    'C14': dict(rule=FAMILY_RULE + "; only CR-free inputs containing at least one line break count as non-trivial", builds=[('rel', 1.0, 1.0)],
+                must_observe=['comparisons', 'inputs_with_breaks'], assumptions=COMMON_ASSUME),
+    'C17': dict(rule=FAMILY_RULE, builds=[('rel', 1.0, 1.0)], must_observe=['histories', 'push_pull_comparisons', 'single_doc_call_sequences', 'inputs_with_all_histories'],
+                assumptions=COMMON_ASSUME + ["a history ends at the first Err returned by peek or next (the statement lets the consumer stop there)"]),
+    'C03': dict(
+        rule=("streams rendered from random abstract node trees by the spec-derived renderer under random legal layout choices "
+              "(constructs exercised are counted per construct_* key), plus the 308 valid yaml-test-suite cases and their "
+              "layout-preserving variants; non-trivial = the stream contains at least one collection; distinct = distinct stream texts"),
+        builds=[('rel', 1.0, 1.0)], must_observe=['streams_matching_model', 'corpus_variants_matching', 'construct_block-map', 'construct_flow-seq'],
+        assumptions=COMMON_ASSUME + ["the renderer emits only layouts that YAML 1.2.2 makes unconditionally legal (DESIGN.md Appendix A)",
+                                     "DocumentStart's explicit flag, spans and absolute anchor numbers are not compared"]),
+    'C06': dict(
+        rule=("a well-formed rendered stream (accepted by the parser) damaged by one of 14 operators placed with the renderer's marks so "
+              "that the result is ill-formed by construction, plus the 94 yaml-test-suite error cases; every case is non-trivial; "
+              "distinct = distinct (damaged text, operator)"),
+        builds=[('rel', 1.0, 1.0)], must_observe=['rejected_as_required', 'corpus_error_cases'] + ['applied_' + o for o in [
+            'cut-inside-open-construct', 'swap-closing-bracket', 'tab-as-indentation', 'dedent-between-levels', 'flow-continued-too-shallow',
+            'quoted-key-over-two-lines', 'implicit-key-longer-than-1024', 'second-root-node', 'bad-escape', 'alias-without-anchor',
+            'undeclared-tag-handle', 'repeated-yaml-directive', 'directive-without-document', 'content-after-document-end']],
+        assumptions=COMMON_ASSUME + ["only the listed damage classes are generated; nothing is asserted about message or position of the error"]),
 }
